@@ -119,6 +119,12 @@ def build_steps(scn: Dict[str, Any], hist: Dict[str, Any]) -> List[Dict[str, Any
     return steps
 
 
+def stack_ready(o: list) -> bool:
+    """A five-byte frame fits below the system stack pointer.  During a boot phase (S not loaded yet) a machine may hold
+    a request back — it then counts as one that rose while it could not be taken — but must take it once S is loaded."""
+    return (o[O_S] & 0xFFFFF) >= 5
+
+
 def power_of(scn: Dict[str, Any], o: list, img: Dict[int, int]) -> int:
     """0 running, 1 halted, 2 off.  The Python machine has one flag for HALT and OFF; which
     instruction stopped it is read from the (immutable) code image."""
@@ -183,7 +189,7 @@ def check_irq(scn: Dict[str, Any], hist: Dict[str, Any], steps: Optional[List[Di
         if st["ops"]:
             for bit in SRC_BITS:
                 if (pre[O_ISR] & bit) and not (prev[O_ISR] & bit):
-                    deliverable = (pre[O_IMR] & 0x80) and (pre[O_IMR] & bit)
+                    deliverable = (pre[O_IMR] & 0x80) and (pre[O_IMR] & bit) and stack_ready(pre)
                     if not deliverable and not any(fr.get("served", 0) & bit for fr in frames):
                         if not owed[bit]:
                             deliv_since[bit] = False
@@ -327,7 +333,7 @@ def check_irq(scn: Dict[str, Any], hist: Dict[str, Any], steps: Optional[List[Di
                 # could it be taken at the end of this step?  (A further edge of a source
                 # whose handler is still running is not a separate request: the handler's
                 # acknowledge covers it — weakest reading.)
-                deliverable = (post[O_IMR] & 0x80) and (post[O_IMR] & bit)
+                deliverable = (post[O_IMR] & 0x80) and (post[O_IMR] & bit) and stack_ready(post)
                 if d is not None and (d["imr_d"] & bit) and (d["isr_d"] & bit):
                     pass   # served immediately
                 elif not deliverable:
@@ -384,7 +390,7 @@ def check_irq(scn: Dict[str, Any], hist: Dict[str, Any], steps: Optional[List[Di
         for bit in SRC_BITS:
             # inside a handler too: delivery clears the master enable, so a request can only be deliverable there
             # when the handler re-enabled interrupts itself ("not re-entered unless it re-enables interrupts itself")
-            can = (owed[bit] and (pre[O_IMR] & 0x80) and (pre[O_IMR] & bit) and (pre[O_ISR] & bit)
+            can = (owed[bit] and (pre[O_IMR] & 0x80) and (pre[O_IMR] & bit) and (pre[O_ISR] & bit) and stack_ready(pre)
                    and not any(fr.get("served", 0) & bit for fr in frames) and pw_pre != 2 and not st["ops"])
             if d is not None:
                 window[bit] = 0
